@@ -5,6 +5,71 @@ CAFS_TRUSTED = ["BLAKE2b: the Lean implementation (Model/Blake2b.lean) equals mi
                 "harness/internal/memstore as the blob store contract"]
 
 PROPS = {
+    "C19": {
+        "sub": "c19",
+        "trivial": r"^order$",
+        "level_text": "Proof: for every history of appends (any payloads, any - even colliding - random draws, concurrent appends in the "
+                      "order of their puts; C19_appends_commute: that order does not matter) C19_tokens_unique (pairwise distinct tokens, from the "
+                      "no-overwrite put whose flag is extracted from Add's call site), C19_token_order / C19_token_order_history (generator times "
+                      "one second apart give tokens in time order, as numbers and - C19_ksuid_string_lt_iff, proved for the 27-digit base-62 "
+                      "rendering - as strings), C19_list_exact (for every max > 0 and EVERY completion order of the parallel fetches the result is "
+                      "exactly the first min(max, maxEntriesPerList) stored entries from the back-dated start key, in token order, payloads "
+                      "unchanged, no panic), C19_lookback_complete and the history-level C19_wal_returns_appended. The look-back (2 x "
+                      "GetExpirationDuration), the page cap, the zero start payload, the empty prefix and the no-overwrite flag are regenerated "
+                      "from pkg/wal on every run. The model is tied to pkg/wal by differential runs of the real Add/ListEntries on the "
+                      "reference object store (logical clock, 1..16 concurrent appenders, forced token collisions, unfetchable blobs).",
+        "level_note": "Trusted: Lean kernel, the facts translator, the harness and its memstore (the store contract: start-key listing in key "
+                      "order, create-if-absent, monotone update times). Modelled, not proved: the YAML decoder of the reader is a parameter `dec`; "
+                      "the theorems need NoSelfRef (no stored blob is an entry descriptor naming its own key with a different payload), which Add "
+                      "cannot violate short of guessing the 128 random bits of its future token (C19_neg_selfref_payload shows the effect). "
+                      "Randomness of KSUID payloads is not modelled: uniqueness comes from the no-overwrite put. Goroutine leaks of ListEntries "
+                      "(early returns) and the unused MaxConcurrency option are outside the property.",
+        "trusted": ["harness/internal/memstore implements the store contract the log is written against (GCS semantics)",
+                    "segmentio/ksuid v1.0.4: String() is the 27-digit base-62 form of the 160-bit number (three library outputs are checked by `decide` in Props/C19.lean)"],
+        "assumptions": ["the object store lists keys in byte order from a start key and Put(NoOverWrite) is create-if-absent (store contract)",
+                        "update times of the token generator object never go back (store contract)",
+                        "KSUID time does not underflow: lookback <= time(from), i.e. from-tokens later than 2014-05-13 + 20 min (C19_neg_lookback_underflow outside)",
+                        "no payload is a YAML entry descriptor naming the token it is about to be given (NoSelfRef)"],
+        "rule": "one evaluation = one operation of a case run on the real pkg/wal in a worker process and compared with the Lean model: "
+                "`add` (ok / exists for a forced collision, token time within the generator clock interval of its batch), `list` (the returned "
+                "entries as add-index:length:FNV-1a of the payload, in order; `next` is auxiliary), `order` (all stored tokens sorted as STRINGS "
+                "vs the model's numeric order). distinct = distinct operation text; the `order` line of a case is not counted as distinct input",
+        "timeout_quick": 600,
+        "timeout_thorough": 3000,
+    },
+    "C17": {
+        "sub": "c17",
+        "trivial": r"^(mount|walk|od |ga x=|rd x=|rf x=)",
+        "level_text": "Proof: for every bundle whose entry paths are non-empty and prefix-free (any order, any number of entries, "
+                      "any depth) the Lean model of populateFS / LookUpInode / GetInodeAttributes / ReadDir / ReadFile satisfies "
+                      "C17_populate_ok (no table collision), C17_tree_exact (successive lookups succeed exactly on entries = files with "
+                      "their size, proper ancestors = directories, and the root), C17_readdir_exact (listing table = immediate children, "
+                      "each once, inode/kind as LookUpInode reports, offsets = position+1), C17_readdir_resume (any session of pages with "
+                      "per-page buffers >= one dirent, resumed at the offset of any consumed dirent, from any valid offset, yields the "
+                      "remaining children exactly once), C17_inode_unique / C17_getattr_exact, and C17_read_exact (ReadFile = "
+                      "(content.drop off).take n in both mount modes; streamed = cafs ReadAt arithmetic over the leaves). Side conditions on "
+                      "firstINode / link counts are discharged by `decide` on facts regenerated from pkg/fuse on every run. The model is "
+                      "tied to the code by differential runs: random trees uploaded as real bundles, mounted in both modes, the "
+                      "fuseutil.FileSystem object driven with random programs, every result compared with the model.",
+        "level_note": "Trusted: Lean kernel, the facts translator, the harness (incl. its parser of the fuse_dirent wire layout) and driver. "
+                      "Modelled, not verified: the Go code (hand-written functional model; tables as finite maps). Not modelled: the kernel "
+                      "side of FUSE and jacobsa/fuse's server loop (the operation interface is the observation point), attribute "
+                      "times/uid/gid/permission bits, cafs caching/prefetching/hash verification (C01-C03), core.Publish (C04). Paths are "
+                      "lists of components: the correspondence path.Dir/path.Base = dropLast/last holds for clean relative paths only.",
+        "trusted": ["fuse_dirent wire layout as written by jacobsa/fuse fuseutil.WriteDirent (parsed back by the harness)",
+                    "reference object stores (harness/internal/memstore) and storage/localfs as staging area"],
+        "assumptions": ["entry paths are clean relative paths (no empty, '.' or '..' component), pairwise distinct, none a proper prefix directory of another",
+                        "the bytes stored for an entry have the length the entry records (upload, C01/C04)",
+                        "buffers of a listing session hold at least one dirent (the kernel uses >= 4096 bytes; a name is <= 255 bytes)",
+                        "pre-downloaded mode stages into a localfs directory as `datamon bundle mount` does"],
+        "rule": "one evaluation = one file-system operation (LookUpInode, GetInodeAttributes, OpenDir, ReadDir page, whole listing "
+                "session, ReadFile, full tree walk) executed on the real read-only file system object of a freshly uploaded and "
+                "mounted random bundle and compared with the Lean model; nodes are addressed by path so raw inode numbers are "
+                "auxiliary; distinct = distinct operation text; operations on unknown inodes, OpenDir, mount and walk lines are not "
+                "counted as non-trivial",
+        "timeout_quick": 300,
+        "timeout_thorough": 1500,
+    },
     "C01": {
         "sub": "c01",
         "trivial": r"content=gen:\d+:0 ",
